@@ -139,28 +139,45 @@ func run(raw json.RawMessage) driver.Result {
 		}
 	}
 	defTerm := rty.StructFieldsTerm(defaults.Elem())
-	res, err, panicked := composeSafe(defaults, layers)
+	// a sequence of stackings over the SAME defaults value, as the monitor re-stacks
+	// after every update: all layers first, then random sub-selections of them
+	rounds := 1 + r.Intn(3)
+	var roundTerms []string
 	var direct []string
-	if in.K == "static" {
-		res2, err2, p2 := viaPublicAPI(defaults, layers)
-		if (err == nil) != (err2 == nil) || panicked != p2 ||
-			(err == nil && !panicked && !reflect.DeepEqual(res.Interface(), res2.Interface())) {
-			direct = append(direct, "dials.Config+View disagrees with the verif-tagged compose export on the same inputs")
+	tags := []string{fmt.Sprintf("layers-%d", nl), fmt.Sprintf("rounds-%d", rounds)}
+	for round := 0; round < rounds; round++ {
+		sel := layers
+		selTerms := layerTerms
+		if round > 0 {
+			sel, selTerms = nil, nil
+			for i := range layers {
+				if r.Chance(1, 2) {
+					sel = append(sel, layers[i])
+					selTerms = append(selTerms, layerTerms[i])
+				}
+			}
 		}
-	}
-	okTerm := ""
-	if err == nil && !panicked {
-		okTerm = rty.StructFieldsTerm(res)
-	}
-	tags := []string{fmt.Sprintf("layers-%d", nl)}
-	if panicked {
-		tags = append(tags, "impl-panic")
-	} else if err != nil {
-		tags = append(tags, "impl-err")
+		res, err, panicked := composeSafe(defaults, sel)
+		if in.K == "static" {
+			res2, err2, p2 := viaPublicAPI(defaults, sel)
+			if (err == nil) != (err2 == nil) || panicked != p2 ||
+				(err == nil && !panicked && !reflect.DeepEqual(res.Interface(), res2.Interface())) {
+				direct = append(direct, "dials.Config+View disagrees with the verif-tagged compose export on the same inputs")
+			}
+		}
+		okTerm := ""
+		if err == nil && !panicked {
+			okTerm = rty.StructFieldsTerm(res)
+		}
+		if panicked {
+			tags = append(tags, "impl-panic")
+		} else if err != nil {
+			tags = append(tags, "impl-err")
+		}
+		roundTerms = append(roundTerms, fmt.Sprintf("(%s, %s)", coqfmt.List(selTerms), driver.Outcome(okTerm, err, panicked)))
 	}
 	return driver.Result{
-		Coq: fmt.Sprintf("Stack %s %s %s %s %s", rty.FieldsTerm(T), defTerm, coqfmt.List(layerTerms), rty.FieldsTerm(PT),
-			driver.Outcome(okTerm, err, panicked)),
+		Coq:        fmt.Sprintf("StackSeq %s %s %s %s", rty.FieldsTerm(T), defTerm, rty.FieldsTerm(PT), coqfmt.List(roundTerms)),
 		Kind:       in.K,
 		Nontrivial: nl >= 2 && overlap,
 		Tags:       tags,
